@@ -415,3 +415,9 @@ package linker
 // C19: same rule for the paths the linker writes into the metafile (see bundler: metafile-paths-use-the-metafile-style).
 // generateExtraDataForFileJS is exempt: it writes the --analyze tree data, which is not the metafile.
 //@ flow metafile-paths-use-the-metafile-style C19: func=* ; except-func=(*linkerContext).generateExtraDataForFileJS ; in=linker ; site=call QuoteForJSON ; when-arg=0:*PrettyPaths* ; argpath=0:*Select(*MetafilePathStyle)*
+
+// C10 / C15 (a chunk's cross-chunk `import {…}` statement declares each binding once): under --minify-identifiers every
+// symbol imported from another chunk is given its own top-level slot in the chunk's minifier, whether or not a part of
+// the chunk uses it (an entry chunk whose code all lives in a shared chunk still re-exports them): the slot loop runs
+// over the sorted cross-chunk imports themselves.
+//@ flow cross-chunk-imports-get-their-own-minifier-slot C10: func=(*linkerContext).renameSymbolsInChunk ; in=linker ; site=call AccumulateSymbolCount ; when-arg=2:*sortedImportsFromOtherChunks* ; scenario=stub_entry_duplicate_import_names ; argpath=2:*sortedImportsFromOtherChunks[*].Ref
